@@ -264,6 +264,25 @@ func c20Round(c *c20Case, dir string) error {
 					if wr.Intn(3) == 0 {
 						op.Points = []sPoint{{Type: "tombstone", Time: tick(), VBits: math.Float64bits(float64(wr.Intn(2)))}}
 					}
+				case x < 77:
+					// a request the store must refuse (root deletion, self edge, NaN): answered with an error, nothing
+					// acknowledged, and the store goes on serving everybody
+					switch wr.Intn(3) {
+					case 0:
+						op = sOp{Kind: "ep", Node: storeRootID, Parent: "root", Points: []sPoint{{Type: "tombstone", Time: tick(), VBits: math.Float64bits(1)}}}
+					case 1:
+						op = sOp{Kind: "ep", Node: "n1", Parent: "n1", Points: []sPoint{{Type: "tombstone", Time: tick()}, {Type: "nodeType", Time: tick(), Text: "group"}}}
+					default:
+						op = sOp{Kind: "np", Node: "n2", Points: []sPoint{{Type: "value", Time: tick(), VBits: 0x7FF8000000000000}}}
+					}
+					if rc, _ := c20Request(wnc, op); rc != 1 {
+						// not refused (0) or not answered (2)
+						atomic.AddInt32(&unanswered, 1)
+						if rc == 2 {
+							return
+						}
+					}
+					continue
 				case x < 95+c.Writers/4 && created < 6: // the share of store verifications shrinks with the number of writers
 					id := fmt.Sprintf("w%dc%d", w, created)
 					created++
